@@ -33,7 +33,7 @@ import re
 from .core import (callee_of, callee_path, strip_refs, strip_payload, show_expr, const_value, expr_mentions, op_const, edge_dominates, bool_edge)
 from .engine import Inconclusive
 from .roles import Roles
-from .opfacts import Unit
+from .opfacts import Unit, in_context
 from . import prov as P
 from . import units as U
 
@@ -185,8 +185,11 @@ def run(ctx):
         # a bound of the string (0 or the length), never to another constant
         for s in su.calls_path(r"^std::option::Option::<T>::unwrap_or$"):
             recv = strip_refs(s.body.trace(s.term["args"][0]))
-            dflt = strip_refs(s.body.trace(s.term["args"][1]))
-            if recv[0] == "call" and recv[1] and re.search(r"::checked_(sub|add)$", recv[1]["path"]):
+            if not (recv[0] == "call" and recv[1] and re.search(r"::checked_(sub|add)$", recv[1]["path"])):
+                continue
+            # the fall-back value, with a helper's parameters replaced by what each of its call sites in substr passes
+            for dflt, _at in in_context(su, s.body, s.body.xtrace(s.term["args"][1]), s):
+                dflt = strip_refs(dflt)
                 is_len = expr_mentions(dflt, lambda y: y[0] == "call" and y[1] and y[1]["path"].endswith("::count"))
                 ctx.check((dflt[0] == "const" and const_value(dflt[1]) == 0) or is_len, "K5.clamp-fallback", "%s falls back to 0 or the string length (%s, %s)" % (recv[1]["path"].rsplit("::", 1)[1], s.where(), cfg),
                           "when %s fails substr falls back to %s instead of clamping to the string (0 or its length)" % (recv[1]["path"].rsplit("::", 1)[1], show_expr(dflt)), where=s.where(), fn=s.body.key, nontrivial=True)
